@@ -17,4 +17,5 @@ CONSTRAINT Bound
 CONSTRAINT StopAtEnd
 CONSTRAINT FewRejections
 INVARIANT Emit
+INVARIANT NeoRoundTrip
 CHECK_DEADLOCK FALSE
